@@ -241,4 +241,45 @@ open MiniPy in
 example : runItem [("response", .str (codesOf cs!"das")), ("called", .bool true)] Gen.src_ssf_pass_test "@ret"
     = .ok (.str passTag) := by rfl
 
+/-! ### the tie by translation: the *source text* of `is_call` computes `isCallSel`
+
+`Pydap.Gen.src_is_call` is the MiniPy tree of the whole body of wsgi/ssf.py `is_call`
+(`match = FUNCTION.match(selection); return bool(match) and not RELOP.search(match.group(1))`).  Opaque, exactly:
+the two regexp calls.  `@function_match` stands for `FUNCTION.match(selection)` and is bound to the model's
+`functionMatch` (`fmatchVal`: None, or a match object with groups 0–2); `@relop_search` stands for
+`RELOP.search(match.group(1))` and is bound to the model's `relopSearch` of the name (`rsearchOf`: None or an arbitrary
+match object `g`; arbitrary `junk` when FUNCTION does not match — the source then never evaluates it).  That the regexps
+*are* `functionMatch` / `relopSearch` is the correspondence run's business, not this theorem's.  Carried by the source:
+the truth test of the match object, the short-circuit `and`, the negation, which group is searched. -/
+
+open MiniPy in
+/-- for every selection text the interpreted body of `is_call` returns the model's `isCallSel` -/
+theorem C19_source_is_call (s : Str) (g : List (List Nat)) (junk : MiniPy.Val) :
+    runItem [("selection", .str (codesOf s)), ("@function_match", fmatchVal s), ("@relop_search", rsearchOf g junk s)]
+        Gen.src_is_call "@ret"
+      = .ok (.bool (isCallSel s)) :=
+  src_is_call_eq s g junk
+
+open MiniPy in
+/-- the text the source hands to `RELOP.search` is group 1 of the FUNCTION match — the name before the first
+    parenthesis, which is what the model's `isCallSel` searches; without a match the expression is not evaluable -/
+theorem C19_source_is_call_relop_arg (s : Str) :
+    runItem [("selection", .str (codesOf s)), ("@function_match", fmatchVal s)] Gen.src_is_call_relop_arg "@arg"
+      = (match functionMatch s with
+         | some (name, _) => .ok (.str (codesOf name))
+         | none => .error (.raised "AttributeError")) := by
+  cases h : functionMatch s with
+  | none => exact src_is_call_relop_arg_none s h
+  | some na => exact src_is_call_relop_arg_eq s na.1 na.2 h
+
+open MiniPy in
+example : runItem [("selection", .str (codesOf cs!"bounds(0,1)>=1")), ("@function_match", fmatchVal cs!"bounds(0,1)>=1"),
+    ("@relop_search", rsearchOf [] .none cs!"bounds(0,1)>=1")] Gen.src_is_call "@ret" = .ok (.bool true) := by decide
+open MiniPy in
+example : runItem [("selection", .str (codesOf cs!"s.t=\"(a)\"")), ("@function_match", fmatchVal cs!"s.t=\"(a)\""),
+    ("@relop_search", rsearchOf [[61]] .none cs!"s.t=\"(a)\"")] Gen.src_is_call "@ret" = .ok (.bool false) := by decide
+open MiniPy in
+example : runItem [("selection", .str (codesOf cs!"s.i>1")), ("@function_match", fmatchVal cs!"s.i>1"),
+    ("@relop_search", rsearchOf [] (.int 7) cs!"s.i>1")] Gen.src_is_call "@ret" = .ok (.bool false) := by decide
+
 end Pydap.C19
